@@ -228,6 +228,21 @@ impl FailSafe {
             })
         })?;
 
+        if let Some(fab_idx) = removed_fabric {
+            // Nothing bound to the dropped fabric may outlive it: the operational (CASE)
+            // sessions established on it while it was still pending would otherwise stay
+            // usable - and be evaluated against whichever fabric is given this index next.
+            // The session the triggering command arrived over (if it is one of them) is
+            // only marked as expired, so that the response can still be sent.
+            let keep_sess_id = expire_sess_id.filter(|id| {
+                sessions
+                    .get(*id)
+                    .is_some_and(|sess| sess.get_local_fabric_idx() == fab_idx.get())
+            });
+
+            sessions.remove_for_fabric(fab_idx, keep_sess_id);
+        }
+
         // Any PASE session that was in flight under this fail-safe is
         // now orphaned: its commissioning attempt was rolled back, so the
         // session has nothing to do and should not stick around to fill
